@@ -207,14 +207,6 @@ EXPORT errno_t _strncpy_s_chk(char *restrict dest, rsize_t dmax,
         overlap_bumper = dest;
 
         while (dmax > 0) {
-            if (unlikely(src == overlap_bumper)) {
-                handle_error(orig_dest, orig_dmax,
-                             "strncpy_s: "
-                             "overlapping objects",
-                             ESOVRLP);
-                return RCNEGATE(ESOVRLP);
-            }
-
             if (unlikely(slen == 0)) {
                 /*
                  * Copying truncated to slen chars.  Note that the TR says to
@@ -234,6 +226,14 @@ EXPORT errno_t _strncpy_s_chk(char *restrict dest, rsize_t dmax,
                 *dest = '\0';
 #endif
                 return RCNEGATE(EOK);
+            }
+
+            if (unlikely(src == overlap_bumper)) {
+                handle_error(orig_dest, orig_dmax,
+                             "strncpy_s: "
+                             "overlapping objects",
+                             ESOVRLP);
+                return RCNEGATE(ESOVRLP);
             }
 
             *dest = *src;
